@@ -260,7 +260,7 @@ class ProxyKmipClient(object):
             return result.uuid
         else:
             reason = result.result_reason.value
-            message = result.result_message.value
+            message = self._get_result_message(result)
             raise exceptions.KmipOperationFailure(status, reason, message)
 
     @is_connected
@@ -386,7 +386,7 @@ class ProxyKmipClient(object):
             return public_uid, private_uid
         else:
             reason = result.result_reason.value
-            message = result.result_message.value
+            message = self._get_result_message(result)
             raise exceptions.KmipOperationFailure(status, reason, message)
 
     @is_connected
@@ -578,7 +578,7 @@ class ProxyKmipClient(object):
             return result.uuid
         else:
             reason = result.result_reason.value
-            message = result.result_message.value
+            message = self._get_result_message(result)
             raise exceptions.KmipOperationFailure(status, reason, message)
 
     @is_connected
@@ -868,7 +868,7 @@ class ProxyKmipClient(object):
             return result.uuids
         else:
             reason = result.result_reason.value
-            message = result.result_message.value
+            message = self._get_result_message(result)
             raise exceptions.KmipOperationFailure(status, reason, message)
 
     @is_connected
@@ -995,7 +995,7 @@ class ProxyKmipClient(object):
             return managed_object
         else:
             reason = result.result_reason.value
-            message = result.result_message.value
+            message = self._get_result_message(result)
             raise exceptions.KmipOperationFailure(status, reason, message)
 
     @is_connected
@@ -1039,7 +1039,7 @@ class ProxyKmipClient(object):
             return result.uuid, result.attributes
         else:
             reason = result.result_reason.value
-            message = result.result_message.value
+            message = self._get_result_message(result)
             raise exceptions.KmipOperationFailure(status, reason, message)
 
     @is_connected
@@ -1069,7 +1069,7 @@ class ProxyKmipClient(object):
             return attribute_names
         else:
             reason = result.result_reason.value
-            message = result.result_message.value
+            message = self._get_result_message(result)
             raise exceptions.KmipOperationFailure(status, reason, message)
 
     @is_connected
@@ -1102,7 +1102,7 @@ class ProxyKmipClient(object):
             return
         else:
             reason = result.result_reason.value
-            message = result.result_message.value
+            message = self._get_result_message(result)
             raise exceptions.KmipOperationFailure(status, reason, message)
 
     @is_connected
@@ -1158,7 +1158,7 @@ class ProxyKmipClient(object):
             return
         else:
             reason = result.result_reason.value
-            message = result.result_message.value
+            message = self._get_result_message(result)
             raise exceptions.KmipOperationFailure(status, reason, message)
 
     @is_connected
@@ -1190,7 +1190,7 @@ class ProxyKmipClient(object):
             return
         else:
             reason = result.result_reason.value
-            message = result.result_message.value
+            message = self._get_result_message(result)
             raise exceptions.KmipOperationFailure(status, reason, message)
 
     @is_connected
@@ -1573,8 +1573,14 @@ class ProxyKmipClient(object):
             return uid, mac_data
         else:
             reason = result.result_reason.value
-            message = result.result_message.value
+            message = self._get_result_message(result)
             raise exceptions.KmipOperationFailure(status, reason, message)
+
+    def _get_result_message(self, result):
+        # The Result Message field of a response batch item is optional.
+        if result.result_message is None:
+            return None
+        return result.result_message.value
 
     def _build_key_attributes(self, algorithm, length, masks=None):
         # Build a list of core key attributes.
